@@ -94,6 +94,25 @@ pub fn normalise_diag(d: &Diag, world: &World) -> NF {
     }
 }
 
+/// As `multiset`, but generated names (`T_<line>_<offset>`) are kept as displayed: for
+/// comparisons of two runs over the same text.
+pub fn multiset_exact(out: &Stdout, world: &World) -> Vec<NF> {
+    let mut v: Vec<NF> = out
+        .diags
+        .iter()
+        .map(|d| {
+            let mut n = normalise_diag(d, world);
+            n.message = d.message.clone();
+            n.labels = d.labels.clone();
+            n.labels.sort();
+            n.first = None;
+            n
+        })
+        .collect();
+    v.sort();
+    v
+}
+
 /// Sorted multiset of normalised findings (positions dropped).
 pub fn multiset(out: &Stdout, world: &World) -> Vec<NF> {
     let mut v: Vec<NF> = out
